@@ -239,6 +239,9 @@ class Result:
     def fail(self, what, req):
         self.oracle.append((what, req))
 
+    def note(self, text):
+        self.notes.append(text)
+
     def as_dict(self):
         return dict(cases=self.cases, stats=self.stats, oracle=self.oracle, notes=self.notes)
 
@@ -298,8 +301,14 @@ def c01_roundtrip(seed, tier):
                               "--max-chunk-size", "64KiB", "--rolling-window-size", "16KiB"], "R:14:0:65536:16384", "none", None))
         special.append((big, ["--hash-chunking", "BuzHash", "--avg-chunk-size", "32KiB", "--min-chunk-size", "20000",
                               "--max-chunk-size", "64KiB", "--rolling-window-size", "12000B"], "B:14:20000:65536:12000", "brotli", 4))
+        # chunks larger than one write call of the runtime takes (2 MiB): fixed 3 MiB blocks, and a
+        # non-zero constant run under a large maximum
+        huge = rng.randbytes(3 << 20) + bytes([0xAA]) * ((3 << 20) + 4097)
+        special.append((huge, ["--fixed-size", "3MiB"], "F:3145728", "none", None))
+        special.append((bytes([0x55]) * ((5 << 20) + 3), ["--hash-chunking", "RollSum", "--avg-chunk-size", "4MiB", "--min-chunk-size", "16KiB",
+                        "--max-chunk-size", "6MiB", "--rolling-window-size", "64"], "R:21:16384:6291456:64", "brotli", 1))
         for src, cfg_args, cfg_tok, compression, level in special:
-            for writer in ("cli", "lib"):
+            for writer in (("cli",) if len(src) > (1 << 20) else ("cli", "lib")):
                 desc = "%s-compress special %s %s/%s src=%s" % (writer, cfg_tok, compression, level, digest(src))
                 if writer == "cli":
                     cls, arch, se, apath = compress_cli(W, src, cfg_args, 16, compression, level, 4)
@@ -611,7 +620,7 @@ def c14_refusals(seed, tier):
             junk_path = W.write(rng.randbytes(200), ".junk.cba")
             for out_state in ("absent", "regular-short", "regular-long", "blockdev-big", "blockdev-small"):
                 for flags in ("none", "force", "seed-output"):
-                    for akind in ("valid", "corrupt-header", "not-an-archive", "pin-mismatch", "pin-prefix", "pin-ok"):
+                    for akind in ("valid", "corrupt-header", "not-an-archive", "pin-mismatch", "pin-prefix", "pin-permuted", "pin-ok"):
                         outp = W.fresh(".out")
                         prior = None
                         if out_state == "regular-short":
@@ -632,13 +641,18 @@ def c14_refusals(seed, tier):
                             pin = ("%02x" % (hc[0] ^ 1)) + hc.hex()[2:]
                         elif akind == "pin-prefix":
                             pin = hc.hex()[:rng.choice([0, 2, 8, 126])]
+                        elif akind == "pin-permuted":
+                            # right length, same multiset of bytes (differences cancel under xor / sum folds)
+                            pin = rng.choice([hc[::-1], hc[1:] + hc[:1], hc[:10][::-1] + hc[10:]]).hex()
+                            if pin == hc.hex():
+                                pin = (hc[1:] + hc[:1]).hex()
                         elif akind == "pin-ok":
                             pin = hc.hex()
                         cls, rc, so, se = clone_cli(W, ap, outp, seed_output=(flags == "seed-output"), force=(flags == "force"),
                                                     pin=pin, blockdev=blockdev)
                         after = read_file(outp)
                         # the property's expectation
-                        archive_refusal = akind in ("corrupt-header", "not-an-archive", "pin-mismatch", "pin-prefix")
+                        archive_refusal = akind in ("corrupt-header", "not-an-archive", "pin-mismatch", "pin-prefix", "pin-permuted")
                         exists_refusal = prior is not None and flags == "none"
                         small_dev = out_state == "blockdev-small"
                         refused = archive_refusal or exists_refusal or small_dev
@@ -876,6 +890,133 @@ def c16_files(seed, tier):
     return R.as_dict()
 
 
+# ------------------------------------------------------------------------------ C13: the output's write interface
+
+def _source_chunks(arch):
+    """(offset, length) of every source chunk in order, read from the archive with the independent decoder."""
+    from . import pyfmt
+    a = pyfmt.parse_archive(arch)
+    d = a["dictionary"]
+    out, off = [], 0
+    for i in d["rebuild_order"]:
+        n = d["chunk_descriptors"][i]["source_size"]
+        out.append((off, n))
+        off += n
+    return out
+
+
+def _bursts(writes):
+    """Merge consecutive write system calls that continue where the previous one ended."""
+    out = []
+    for off, n in writes:
+        if n == 0:
+            continue
+        if out and out[-1][0] + out[-1][1] == off:
+            out[-1] = (out[-1][0], out[-1][1] + n)
+        else:
+            out.append((off, n))
+    return out
+
+
+def c13_writes(seed, tier):
+    """Every write system call on the output of a CLI clone, observed with strace: whole source chunks at
+    their source offsets, nothing twice, nothing at or beyond the source length, nothing where the prior
+    output already held the chunk; chunk-level write sequence compared with the model's write log."""
+    rng = random.Random(seed * 1000003 + 13)
+    R = Result()
+    W = Work("c13")
+    try:
+        n = 120 if tier == "thorough" else 26
+        for i in range(n):
+            big = (i % 13 == 5)
+            compression = "none"
+            if big:
+                # chunks larger than what one write system call of the runtime takes (2 MiB)
+                bs = rng.choice([3 << 20, (2 << 20) + 1, 5 << 20])
+                src = rng.randbytes(bs + rng.randrange(1, bs)) if i % 2 else bytes([0xAA]) * (bs * 2 + 17)
+                cfg = (["--fixed-size", str(bs)], "F:%d" % bs) if i % 2 else (
+                    ["--hash-chunking", "RollSum", "--avg-chunk-size", "4MiB", "--min-chunk-size", "16KiB",
+                     "--max-chunk-size", "6MiB", "--rolling-window-size", "64"], "R:21:16384:6291456:64")
+                arch, apath, cfg_tok, hl = make_archive(W, rng, src, cfg=cfg)
+                R.stat("chunks_larger_than_one_write_call")
+            else:
+                src = gen_source(rng, 5000)
+                if len(src) < 2:
+                    src = rng.randbytes(700)
+                compression = rng.choice(["none", "none", "brotli"])
+                arch, apath, cfg_tok, hl = make_archive(W, rng, src, hash_len=rng.choice([4, 8, 64]), compression=compression)
+            chunks = _source_chunks(arch)
+            starts = set(o for o, _ in chunks)
+            ends = set(o + k for o, k in chunks)
+            mode = ["new", "force-over-longer", "seeds", "in-place", "in-place+seeds", "in-place-rotated", "blockdev"][i % 7] if not big \
+                else rng.choice(["new", "in-place-rotated"])
+            prior = None
+            seeds = []
+            if mode == "force-over-longer":
+                prior = rng.randbytes(len(src) + rng.randrange(1, 3000))
+            elif mode in ("in-place", "in-place+seeds", "blockdev"):
+                prior = edit_source(rng, src) if rng.random() < 0.8 else src
+                if mode == "blockdev" and len(prior) < len(src):
+                    prior += bytes(len(src) - len(prior) + rng.randrange(0, 40))
+            elif mode == "in-place-rotated":
+                k = chunks[len(chunks) // 2][0] if len(chunks) > 1 else len(src) // 2
+                prior = src[k:] + src[:k]
+            if mode in ("seeds", "in-place+seeds"):
+                seeds = [edit_source(rng, src), src[len(src) // 3:]][:rng.randrange(1, 3)]
+            outp = W.fresh(".out")
+            if prior is not None:
+                with open(outp, "wb") as f:
+                    f.write(prior)
+            in_place = mode.startswith("in-place") or mode == "blockdev"
+            log = W.fresh(".strace")
+            cls, rc, so, se = clone_cli(W, apath, outp, seeds=[W.write(x, ".seed") for x in seeds], seed_output=in_place,
+                                        force=(mode == "force-over-longer"), blockdev=(mode == "blockdev"), strace_log=log)
+            got = read_file(outp)
+            ops = file_ops(parse_strace(log), outp)
+            writes = [(o[1], o[2]) for o in ops if o[0] == "write"]
+            req = "cli-clone-writes mode=%s cfg=%s hl=%d src=%s prior=%s" % (mode, cfg_tok, hl, digest(src), digest(prior or b""))
+            R.stat("clones")
+            R.stat("mode_" + mode)
+            R.stat("write_calls", len(writes))
+            if cls != "ok":
+                R.fail("clone-%s" % cls, req + " :: " + se.decode(errors="replace")[-200:].replace("\n", "|"))
+                continue
+            if (got[:len(src)] if mode == "blockdev" else got) != src:
+                R.fail("output-differs-from-source", req)
+            if any(o[0] == "write-failed" for o in ops):
+                R.note("a write failed in " + req)
+            bursts = _bursts(writes)
+            bad = [b for b in bursts if b[0] not in starts or (b[0] + b[1]) not in ends]
+            if bad:
+                R.fail("write-is-not-whole-source-chunks-at-their-offsets", req + " :: %r" % bad[:3])
+            if any(o + k > len(src) for o, k in writes):
+                R.fail("write-at-or-beyond-source-length", req)
+            cover = sorted(bursts)
+            if any(cover[j][0] + cover[j][1] > cover[j + 1][0] for j in range(len(cover) - 1)):
+                R.fail("location-written-twice", req)
+            if in_place and prior is not None and prior == src and writes:
+                R.fail("output-already-held-the-source-but-was-written", req)
+            if mode == "new" and _bursts(cover) != _bursts(sorted(chunks)) and len(src) > 0:
+                R.fail("new-output-not-written-exactly-once-everywhere", req)
+            # chunk-level write sequence vs the model's write log (same scenario; in-order split at chunk boundaries)
+            if not big and compression == "none" and len(arch) + len(prior or b"") + sum(len(x) for x in seeds) <= 12000 \
+                    and all(len(x) > 0 for x in seeds):
+                seq = []
+                for o, k in bursts:
+                    for co, ck in chunks:
+                        if o <= co and co + ck <= o + k:
+                            seq.append((co, ck))
+                flags = ("s" if in_place else "") + ("b" if mode == "blockdev" else "") or "-"
+                mreq = "clone-w %s - %s %s %s -" % (flags, hx(arch), hx(prior or b""), ",".join(hx(x) for x in seeds) or "-")
+                R.case(mreq, None)
+                R.cases[-1] = (mreq, "result=ok out=%s writes=%s" % (
+                    digest(got), ",".join("%d.%s" % (o, digest(src[o:o + k])) for o, k in seq) or "-"))
+            os.unlink(log)
+    finally:
+        W.close()
+    return R.as_dict()
+
+
 # ------------------------------------------------------------------------------ C02 / C06: seeds and fetches
 
 def _strace_reads(log, path):
@@ -998,10 +1139,128 @@ def c02_seeds(seed, tier):
                 R.fail("output-already-held-the-source-but-chunks-were-fetched", req + " fetched=%r" % fetched[:4])
             if os.path.exists(log):
                 os.unlink(log)
+        # dedicated rows (C02 + C03): in place AND seeds, where a seed provides chunks that belong where the
+        # prior output still holds chunks needed elsewhere (the output must be reordered before seeds are used)
+        for j in range(30 if tier == "thorough" else 8):
+            bs = rng.choice([64, 256, 1000])
+            nb = rng.randrange(4, 9)
+            blocks = [rng.randbytes(bs) for _ in range(nb)]
+            src = b"".join(blocks)
+            cfg = (["--fixed-size", str(bs)], "F:%d" % bs) if j % 2 == 0 else None
+            arch, apath, cfg_tok, hl = make_archive(W, rng, src, cfg=cfg)
+            k = rng.randrange(1, nb - 1)
+            prior = b"".join(blocks[k:]) + rng.randbytes(rng.randrange(0, bs))       # the tail, moved to the front
+            seed_a = b"".join(reversed(blocks[:k])) + rng.randbytes(rng.randrange(0, 50))  # the head, out of order
+            outp = W.fresh(".out")
+            with open(outp, "wb") as f:
+                f.write(prior)
+            via_stdin = j % 3 == 0
+            cls, rc, so, se = clone_cli(W, apath, outp, seeds=[] if via_stdin else [W.write(seed_a, ".seed")], seed_output=True,
+                                        stdin_seed=seed_a if via_stdin else None)
+            got = read_file(outp)
+            req = "cli-clone in-place+seed (seed chunks land on chunks to be moved) cfg=%s bs=%d k=%d stdin=%s src=%s" % (
+                cfg_tok, bs, k, via_stdin, digest(src))
+            R.stat("in_place_with_seed_landing_on_moved_chunks")
+            if cls != "ok":
+                R.fail("clone-with-seeds-%s" % cls, req)
+            elif got != src:
+                R.fail("seeds-changed-the-output", req)
+            if len(arch) + len(prior) + len(seed_a) <= 14000:
+                mreq = "clone-ro s - %s %s %s -" % (hx(arch), hx(prior), hx(seed_a))
+                R.case(mreq, None)
+                R.cases[-1] = (mreq, "result=%s out=%s" % (cls if cls in ("ok", "panic") else "err", digest(got or b"")))
+        # dedicated C06 rows with an oracle that needs no chunker (fixed-size blocks): the prior output is longer
+        # or shorter than the source and holds some of its blocks (also in its tail, beyond the source length);
+        # the source repeats blocks at non-adjacent positions.  Fetched = exactly the stored ranges of the blocks
+        # of the source that the prior output does not hold at a block boundary, each once.
+        for j in range(40 if tier == "thorough" else 10):
+            bs = rng.choice([64, 128, 500])
+            pool = [rng.randbytes(bs) for _ in range(7)]
+            src_ids = [rng.randrange(7) for _ in range(rng.randrange(4, 12))]
+            if j % 2 == 0:
+                src_ids = src_ids + [src_ids[0], src_ids[1 % len(src_ids)]]          # repeats, not adjacent
+            src = b"".join(pool[k] for k in src_ids) + (pool[0][:rng.randrange(1, bs)] if j % 3 == 0 else b"")
+            arch, apath, cfg_tok, hl = make_archive(W, rng, src, cfg=(["--fixed-size", str(bs)], "F:%d" % bs), hash_len=64)
+            shape = ["longer", "shorter", "same", "absent"][j % 4]
+            prior_ids = [rng.randrange(9) for _ in range(len(src_ids) + (4 if shape == "longer" else -2 if shape == "shorter" else 0))]
+            extra = [rng.randbytes(bs) for _ in range(2)]
+            prior = b"".join((pool + extra)[k] for k in prior_ids)
+            if shape == "longer":
+                prior += pool[src_ids[-1]]                                             # a needed block in the tail
+            outp = W.fresh(".out")
+            if shape != "absent":
+                with open(outp, "wb") as f:
+                    f.write(prior)
+            else:
+                prior = b""
+            use_http = j % 5 == 4
+            log = W.fresh(".strace")
+            srv = httpd.Server(arch) if use_http else None
+            cls, rc, so, se = clone_cli(W, srv.url() if use_http else apath, outp, seed_output=True, strace_log=None if use_http else log)
+            a = pyfmt.parse_archive(arch)
+            if use_http:
+                fetched = [r for r in srv.log if r is not None][2:]
+                srv.close()
+            else:
+                fetched = [r for r in _strace_reads(log, apath) if r[0] >= a["header_size"]]
+            cuts = set()
+            for cd in a["dictionary"]["chunk_descriptors"]:
+                cuts.add(a["chunk_data_offset"] + cd["archive_offset"])
+                cuts.add(a["chunk_data_offset"] + cd["archive_offset"] + cd["archive_size"])
+            fetched = split_at(merge_ranges(fetched), cuts)
+            have = set(prior[o:o + bs] for o in range(0, len(prior), bs))
+            src_blocks = [src[o:o + bs] for o in range(0, len(src), bs)]
+            uniq = []
+            for b in src_blocks:
+                if b not in uniq:
+                    uniq.append(b)
+            # descriptors are the unique blocks in order of first occurrence, stored back to back, uncompressed
+            expect, off = [], a["chunk_data_offset"]
+            for cd, b in zip(a["dictionary"]["chunk_descriptors"], uniq):
+                if b not in have:
+                    expect.append((a["chunk_data_offset"] + cd["archive_offset"], cd["archive_size"]))
+            req = "cli-clone in-place fixed blocks bs=%d prior=%s http=%s src_ids=%r prior_ids=%r" % (bs, shape, use_http, src_ids, prior_ids)
+            R.stat("fixed_block_rows_prior_" + shape)
+            if cls != "ok":
+                R.fail("clone-with-seeds-%s" % cls, req)
+            elif read_file(outp) != src:
+                R.fail("seeds-changed-the-output", req)
+            elif len(a["dictionary"]["chunk_descriptors"]) == len(uniq) and fetched != expect:
+                R.fail("fetched-ranges-are-not-exactly-the-missing-chunks-each-once",
+                       req + " :: fetched=%r expected=%r" % (fetched[:6], expect[:6]))
+            if os.path.exists(log):
+                os.unlink(log)
+        # dedicated rows: a transient write fault on the output while SEEDS are being consumed (the fault is
+        # gone afterwards): a clone that then reports success must still have produced the source
+        shim = ensure_shim()
+        for j in range(12 if tier == "thorough" else 3):
+            src = rng.randbytes(rng.randrange(3000, 9000))
+            arch, apath, cfg_tok, hl = make_archive(W, rng, src)
+            seed_paths = [W.write(src if j % 2 == 0 else edit_source(rng, src), ".seed")]
+            outp = W.fresh(".out")
+            wl = W.fresh(".wl")
+            with open(outp, "wb") as f:
+                f.write(rng.randbytes(len(src)))
+            clone_cli(W, apath, outp, seeds=seed_paths, force=True, preload=shim, env={"IOFAULT_PATH": outp, "IOFAULT_LOG": wl})
+            nw = len(_shim_writes(wl))
+            for k in sorted(set([0, nw // 3, nw // 2, max(0, nw - 2)])) if nw else []:
+                with open(outp, "wb") as f:
+                    f.write(rng.randbytes(len(src)))
+                cls, rc, so, se = clone_cli(W, apath, outp, seeds=seed_paths, force=True, preload=shim,
+                                            env={"IOFAULT_PATH": outp, "IOFAULT_MODE": "fail-once", "IOFAULT_AT": str(k), "IOFAULT_BYTES": "1"})
+                R.stat("transient_write_fault_during_seed_phase")
+                if cls == "ok" and read_file(outp) != src:
+                    R.fail("seeds-changed-the-output",
+                           "cli-clone seed=%s force over same-size file, write %d of %d fails once cfg=%s src=%s" % (
+                               "source" if j % 2 == 0 else "edited", k, nw, cfg_tok, digest(src)))
+                elif cls not in ("ok", "err"):
+                    R.fail("clone-with-seeds-%s" % cls, "transient write fault at write %d cfg=%s src=%s" % (k, cfg_tok, digest(src)))
         # dedicated C06 rows: output already equal to the source, regular and block device
         for blockdev in (False, True):
             src = rng.randbytes(3000)
-            arch, apath, cfg_tok, hl = make_archive(W, rng, src)
+            # on a device longer than the source the scan sees the source's last chunk continue into the
+            # trailing bytes unless the chunk boundary does not depend on them: fixed-size chunks there
+            arch, apath, cfg_tok, hl = make_archive(W, rng, src, cfg=(["--fixed-size", "100"], "F:100") if blockdev else None)
             outp = W.fresh(".out")
             with open(outp, "wb") as f:
                 f.write(src + (b"\1" * 77 if blockdev else b""))
@@ -1215,7 +1474,17 @@ def c04_corruption(seed, tier):
                     os.unlink(outp)
             # --verify-header: anything but the complete genuine checksum must be refused, output not created
             hc = a["header_checksum"].hex()
-            for pin in ("", hc[:2], hc[:16], hc[:126], "%02x" % (int(hc[:2], 16) ^ 1) + hc[2:]):
+            hb = bytes.fromhex(hc)
+            swapped = bytearray(hb)
+            ii = next(k for k in range(63) if hb[k] != hb[k + 1])
+            swapped[ii], swapped[ii + 1] = swapped[ii + 1], swapped[ii]
+            # wrong values of the right length whose differences cancel under a sum or an xor of the bytes:
+            # two bytes transposed, the bytes reversed, rotated; and one with two bytes changed by the same amount
+            same_delta = bytearray(hb)
+            same_delta[3] ^= 0x40
+            same_delta[40] ^= 0x40
+            for pin in ("", hc[:2], hc[:16], hc[:126], "%02x" % (int(hc[:2], 16) ^ 1) + hc[2:],
+                        bytes(swapped).hex(), hb[::-1].hex(), (hb[1:] + hb[:1]).hex(), bytes(same_delta).hex(), "00" * 64):
                 # (an over-long value whose first 64 bytes are the checksum is truncated to 64 bytes by the option
                 #  parser - HashSum::MAX_LEN - and accepted; that is the parser's reading of the value, not a prefix match)
                 outp = W.fresh(".out")
